@@ -395,12 +395,18 @@ class MHLHistory:
             for hash_entry in media_hash.hash_entries:
                 if hash_entry.action == "new":
                     # TODO: do need to use the original hash here or can we also use another hash
-                    original_hash_entry = self.find_original_hash_entry_for_path(media_hash.path)
-                    required_hash_entry = media_hash.find_hash_entry_for_format(original_hash_entry.hash_format)
-                    if required_hash_entry is None:
+                    # a new hash format needs at least one hash in an already recorded format of the same file
+                    # in this generation and all of them must have been verified against the history
+                    required_hash_entries = [
+                        entry for entry in media_hash.hash_entries if entry.action in ("verified", "failed")
+                    ]
+                    if len(required_hash_entries) == 0:
                         raise AssertionError("no hash entry found for new hash", hash_entry)
-                    if required_hash_entry.action != "verified":
-                        raise AssertionError("hash entry for new hash not verified", hash_entry, required_hash_entry)
+                    for required_hash_entry in required_hash_entries:
+                        if required_hash_entry.action != "verified":
+                            raise AssertionError(
+                                "hash entry for new hash not verified", hash_entry, required_hash_entry
+                            )
                     hash_entry.action = "verified"
         return True
 
